@@ -187,10 +187,17 @@ def run(R):
         R.floor("%s|send_command success paths" % cfg, nsucc, 1)
         # the loop iterates the `args` slice itself
         for lid, l in res.loops.items():
-            it = [v for k, v in l["entry_values"].items() if k.split("~")[0].endswith("iter")]
-            ok = bool(it) and isinstance(it[0], Agg) and "slice" in (it[0].name or "") and isinstance(it[0].fields[0], Ptr) and it[0].fields[0].root == ("O", "*args")
+            # what the loop pulls from: the receiver of its `next` events must be a front-to-back iterator over `args`
+            # (directly, or behind copied / map adaptors, whose own `next` delegates to it)
+            srcs = []
+            for c in l["cont"]:
+                for e in TR.flatten_events(c["trace"], res.loops):
+                    if e.kind == "call" and TR.classify(e).cls == "NEXT" and e.pointees:
+                        srcs.append(e.pointees[0])
+            ok = bool(srcs) and all(isinstance(v, Agg) and (v.name or "") == "core::slice::iter" and isinstance(v.fields[0], Ptr)
+                                    and v.fields[0].root == ("O", "*args") for v in srcs)
             R.ob("C07a-params-in-slice-order", "%s|send_command|loop-source" % cfg, ok,
-                 "the parameter loop does not iterate the `args` slice front to back (iterator: %r)" % (it[:1],))
+                 "the parameter loop does not iterate the `args` slice front to back (iterators pulled from: %r)" % (srcs[:2],))
         # send_pixels: (strobe(word))* over the stream items, no DC event
         sp = C.one(F.trait_impl_method(C.IFACE, "send_pixels", self_adt=PIF), "ParallelInterface::send_pixels")
         ex = R.executor(F)
@@ -231,17 +238,21 @@ def run(R):
                      sample={"obligation": "%s %s" % (o.info.get("what"), o.info.get("op")), "operands": [o.info.get("a"), o.info.get("b")]})
             nfast = 0
             for lid, l in res.loops.items():
-                rng = [v for k, v in l["entry_values"].items() if k.split("~")[0].endswith("iter")]
+                # the loop's integer range, wherever the loop lives (the function itself, or a closure-taking core method
+                # analysed through the prelude): the value it had on entry
+                rng = [v for k, v in l["entry_values"].items() if isinstance(v, Agg) and (v.name or "").endswith("Range")]
                 conts = l["cont"]
-                words = [[s.cls + ":" + (s.recv or "") for s in TR.syms_of(TR.flatten_events(c["trace"], res.loops))] for c in conts]
-                if rng and isinstance(rng[0], Agg) and (rng[0].name or "").endswith("Range") and "send_repeated_pixel@" in lid:
+                words = [[(s.cls + ":" + (s.recv or "")) if s.cls != "NEXT" else "NEXT" for s in TR.syms_of(TR.flatten_events(c["trace"], res.loops))] for c in conts]
+                # the fast path is the integer-range loop that strobes without touching the bus (the general path
+                # sets the bus in its loop and is covered by the word rules)
+                if rng and words and not any(x.startswith("BUS") for w in words for x in w) and any(x.startswith("PIN") for w in words for x in w):
                     nfast += 1
                     start, end = rng[0].fields[0].poly(), rng[0].fields[1].poly()
                     cnt = sym_int("count", 32, False)
                     R.ob("C07c-strobe-count", "%s|range" % tagn, start == ONE and end == cnt * N,
                          "the bare-strobe loop runs over %r..%r; with the first full word it must give count*N strobes, i.e. 1..count*%d" % (start, end, N),
                          sample={"N": N, "range": [repr(start), repr(end)]})
-                    okw = all(w == ["NEXT:iter", "PIN_LO:*self.wr", "PIN_HI:*self.wr"] for w in words) and bool(words)
+                    okw = all(w == ["NEXT", "PIN_LO:*self.wr", "PIN_HI:*self.wr"] for w in words) and bool(words)
                     R.ob("C07c-bare-strobes", "%s|loop-body" % tagn, okw,
                          "each iteration of the fast path must be exactly WR low, WR high with no bus update; got %s" % words[:2])
             R.floor("%s fast-path loops" % tagn, nfast, 1)
